@@ -609,7 +609,7 @@ class DriverEngine(Engine):
         post = not cfg.flag(1, 4)
         st["workload.real_canonicalize"] += 1
         try:
-            module = Parser(DriverEngine.full_ctx, corpus.w2[ci]).parse_module()
+            module = Parser(DriverEngine.full_ctx.clone(), corpus.w2[ci]).parse_module()
         except Exception:  # noqa: BLE001
             st["real.parse_failed"] += 1
             res.trace = tr
